@@ -12,9 +12,9 @@ import (
 // FSM (so that stake/unstake/pause/order transactions usually apply), with a separate stream of invalid ones.
 type TxGen struct {
 	R       *Rng
-	NKeys   int              // keys 0..NKeys-1 may act
-	Orders  map[string]int   // order id (hex) -> seller key index
-	Counts  map[string]int   // message kinds generated
+	NKeys   int            // keys 0..NKeys-1 may act
+	Orders  map[string]int // order id (hex) -> seller key index
+	Counts  map[string]int // message kinds generated
 	Invalid int
 	Fee     uint64
 	Stable  int // keys 0..Stable-1 never unstake or pause (keeps a committee alive)
@@ -133,7 +133,7 @@ func (g *TxGen) Next(sm *fsm.StateMachine) ([]byte, string) {
 			vals       []uint64
 		}{
 			{fsm.ParamSpaceFee, fsm.ParamSendFee, []uint64{10000, 20000, 1}},
-			{fsm.ParamSpaceVal, fsm.ParamUnstakingBlocks, []uint64{1, 2, 5, 0}},                 // 0 is rejected by Check()
+			{fsm.ParamSpaceVal, fsm.ParamUnstakingBlocks, []uint64{1, 2, 5, 0}},               // 0 is rejected by Check()
 			{fsm.ParamSpaceVal, fsm.ParamMaxSlashPerCommittee, []uint64{15, 60, 100, 0, 101}}, // 0 and 101 are rejected
 			{fsm.ParamSpaceVal, fsm.ParamMaxPauseBlocks, []uint64{3, 5, 0}},
 			{fsm.ParamSpaceVal, fsm.ParamMaxCommitteeSize, []uint64{2, 3, 100}},
